@@ -29,12 +29,13 @@ OPTS = {"loop_bound": 3}
 PANIC_CALLS = ("unwrap", "expect", "panic", "panic_fmt", "unreachable", "unwrap_failed", "assert_failed", "panic_display", "panic_nounwind")
 
 # tabulated classes for sites that are not covered by interpretation: (function short name predicate, kind predicate) -> reason
-def tabulated(short, file, kind):
-    if file.endswith("prefix.rs") and kind == "call:unwrap" and (short.endswith("from_repr_len") or short.endswith("longest_common_prefix")):
+def tabulated(short, file, kind, path="", F=None):
+    in_prefix = C.in_module(F, path, C.PREFIX_MOD) if (path and F is not None) else file.endswith("prefix.rs")
+    if in_prefix and kind == "call:unwrap" and (short.endswith("from_repr_len") or short.endswith("longest_common_prefix")):
         return "J-valid-input: X::new(addr, len).unwrap() — len <= width is the validity precondition of the property (min of two valid lengths for the common prefix)"
     if short == "Prefix::is_bit_set" and kind.startswith("assert:Overflow"):
         return "J-type-range: 1u32 + (u8 as u32) (C17 R17.2)"
-    if file.endswith("prefix.rs") and kind.startswith("assert:"):
+    if in_prefix and kind.startswith("assert:"):
         return "J-width-guard / J-type-range: arithmetic of prefix.rs is decided by C17 R17.1/R17.2"
     return None
 
@@ -231,7 +232,7 @@ def run_config(ctx, rep, cfg, F):
         f = F.fns.get(F.short.get(base, ""))
         if f is None or "/fuzzing/" in f["file"] or f["file"].endswith("/test.rs"):
             continue
-        if f["file"].endswith("fmt.rs") or (f.get("impl") and any(i["path"] == f["impl"] and i.get("auto_derived") for i in F.impls)):
+        if C.in_module(F, f["path"], "prefix_trie::fmt") or (f.get("impl") and any(i["path"] == f["impl"] and i.get("auto_derived") for i in F.impls)):
             continue
         sites = []
         for c in m["calls"]:
@@ -244,7 +245,7 @@ def run_config(ctx, rep, cfg, F):
             sites.append(("assert:" + a["kind"], a["line"]))
         for kind, line in sites:
             n_sites += 1
-            reason = tabulated(base, f["file"], kind)
+            reason = tabulated(base, f["file"], kind, f["path"], F)
             on_table = bool(f.get("impl")) and F.adt_of(f["impl_self_ty"]) == C.TABLE
             callees = [(c_.get("callee") or "") for c_ in m["calls"]]
             if reason is None and on_table and kind == "call:unwrap" and any("ptr::" in c_ and c_.rsplit("::", 1)[-1] in ("as_ref", "as_mut") for c_ in callees) \
